@@ -119,8 +119,7 @@ Definition pinned_shared_identifiers : list (string * string * N * N) :=
   [ ("system-id", "http://www.microsoft.com/", 2401, 2402);
     ("root", "wml", 1101, 1102); ("root", "wml", 1101, 1103); ("root", "wml", 1101, 1104);
     ("root", "channel", 1203, 1204);
-    ("root", "o-ex:rights", 0, 1801);
     ("root", "SyncML", 2201, 2101); ("root", "DevInf", 2202, 2102); ("root", "MetInf", 2203, 2103);
     ("root", "SyncML", 2201, 2001); ("root", "DevInf", 2202, 2002);
     ("root", "WV-CSP-Message", 2301, 2302);
-    ("ns-root", "syncml:devinf:DevInf", 2202, 2102); ("ns-root", "syncml:devinf:DevInf", 2202, 2002) ]%string.
+    ("ns-root", "syncml:devinf|DevInf", 2202, 2102); ("ns-root", "syncml:devinf|DevInf", 2202, 2002) ]%string.
